@@ -267,6 +267,13 @@ def run_cases(cases, ctx):
                 obj, name, log, oid, meta = built[mi]
                 req = requested_name(nv, name, m["kind"], ci, ser)
                 tr["name"], tr["req"] = name, repr(req)
+                if ci % 2:
+                    # the request before this one, on the same connection, was of the other kind (a oneway call before one that is
+                    # answered, an answered call before a oneway one): how this request is treated is its own flags' business
+                    c0 = conn()
+                    c0.send(L.invoke_msg(oid, "bystander", [], flags=0 if rk in ("oneway", "batch_oneway") else protocol.FLAGS_ONEWAY, ser=ser))
+                    lab.quiesce()
+                    c0.drain()
                 del log[:]
                 before = snapshot(obj)
                 flags = 0
